@@ -341,6 +341,7 @@ Lemma reg_update_spec : forall r v g r' o a,
    (exists e, o = Some (set_epoch v e) /\ r_info r' = set_epoch v e /\ a_ok a = true)).
 Proof.
   intros r v g r' o a H. unfold reg_update in H.
+  destruct (0 <? r_mode r); [inversion H; subst; simpl; repeat split; auto|].
   destruct (0 <? r_fail r).
   - inversion H; subst; simpl. repeat split; auto.
   - destruct (g =? epoch (r_info r)); inversion H; subst; simpl.
@@ -745,7 +746,11 @@ Lemma do_check_spec : forall s full pa pv,
   res_spec (check_P s) s (do_check s full pa pv).
 Proof.
   intros s full pa pv Hi. unfold do_check. cbv zeta.
+  destruct (1 <? r_mode (s_reg s)).
+  { simpl. split; [reflexivity|apply sspec_nil; exact Hi]. }
   destruct (len (s_nodes s) <=? s_stable s / 2).
+  { apply check_finish_spec. apply sspec_nil. exact Hi. }
+  destruct (0 <? r_mode (s_reg s)).
   { apply check_finish_spec. apply sspec_nil. exact Hi. }
   (* removings first *)
   set (X := if 0 <? len (removings (r_info (s_reg s)))
@@ -946,6 +951,7 @@ Proof.
     by (simpl; split; [reflexivity|apply sspec_nil; exact Hi]).
   assert (Hnil' : forall b : bres, res3_spec (bal_P (s_ans s)) s (s, b, @nil attempt))
     by (intros b; simpl; split; [reflexivity|apply sspec_nil; exact Hi]).
+  destruct (1 <? r_mode (s_reg s)); [apply Hnil'|].
   destruct (s_unstable s || s_upgrading s); [apply Hnil'|].
   destruct (0 <? len (s_rmnodes s)); [apply Hnil'|].
   destruct (0 <? len (removings (r_info (s_reg s)))); [apply Hnil'|].
@@ -1043,6 +1049,7 @@ Lemma process_removing_spec : forall s place,
 Proof.
   intros s place Hi. unfold process_removing.
   destruct (s_rmnodes s) as [|e rm] eqn:Erm; [simpl; split; [reflexivity|apply sspec_nil; exact Hi]|].
+  destruct (1 <? r_mode (s_reg s)); [simpl; split; [reflexivity|apply sspec_nil; exact Hi]|].
   destruct (check_pending (s_ans s) (r_info (s_reg s)) (e :: rm)); [simpl; split; [reflexivity|apply sspec_nil; exact Hi]|].
   set (A := fold_left (proc_node (s_replica s) (s_ans s) (s_now s) (s_nodes s) place (r_info (s_reg s)))
                       (map fst (e :: rm)) (mkPacc (e :: rm) (s_reg s) false false [] false)).
@@ -1194,6 +1201,7 @@ Lemma learner_check_spec : forall s,
   let '(r, w) := learner_check s in sspec (s_replica s) quiet (s_reg s) r w.
 Proof.
   intros s Hi. unfold learner_check.
+  destruct (0 <? r_mode (s_reg s)); [apply sspec_nil; exact Hi|].
   destruct (s_lstart s) as [[|]|]; [| |apply sspec_nil; exact Hi].
   - destruct (len (isr (r_info (s_reg s))) <=? s_replica s / 2); [apply sspec_nil; exact Hi|].
     set (X := match find (fun n : N => ahas n (s_lnodes s)) (learners (r_info (s_reg s))) with
@@ -1282,7 +1290,8 @@ Proof.
   - (* ELCheck *)
     assert (H := learner_check_spec s Hi). destruct (learner_check s) as [r w]. simpl. split; [reflexivity|].
     eapply sspec_weaken; [|exact H]. intros ? _. exact I.
-  - simpl. split; [reflexivity|apply sspec_nil; exact Hi].
+  - (* ELStart *)
+    destruct (0 <? r_mode (s_reg s)); (split; [apply sspec_nil; exact Hi|left; reflexivity]).
   - (* ELAdd *)
     assert (H := learner_add_spec (s_replica s) (s_reg s) n Hi).
     destruct (learner_add (s_reg s) (r_info (s_reg s)) n) as [[[c r] i] w].
@@ -1301,10 +1310,13 @@ Proof.
     apply pspec_sspec in H. destruct H as [H _]. simpl. split; [reflexivity|]. eapply sspec_weaken; [|exact H]. intros ? _. exact I.
   - (* EReplica *)
     destruct (5 <? r); [split; [apply sspec_nil; exact Hi|left; reflexivity]|].
+    destruct (1 <? r_mode (s_reg s)); [split; [apply sspec_nil; exact Hi|left; reflexivity]|].
     destruct (len (avail_nodes s) <? (if 0 <? r then r else s_replica s));
       [split; [apply sspec_nil; exact Hi|left; reflexivity]|].
+    destruct (0 <? r_mode (s_reg s)); [split; [apply sspec_nil; exact Hi|left; reflexivity]|].
     split; [apply sspec_same_info; [reflexivity|exact Hi]|right; split; reflexivity].
   - (* EUpgrade *) simpl. split; [reflexivity|apply sspec_nil; exact Hi].
+  - (* ERegMode *) simpl. split; [reflexivity|apply sspec_same_info; [reflexivity|exact Hi]].
 Qed.
 
 (* the replication factor is never raised along the run (only needed for q = true) *)
@@ -1432,6 +1444,68 @@ Proof.
   inversion H; subst. clear H.
   destruct (fold_add_wf l empty_info wf_empty eq_refl Hn) as [Hw Hr]; [intros x _ []|].
   split; [exact Hw|]. split; [rewrite Hr; unfold len; simpl; lia|]. apply N.leb_gt in E. intros _. exact E.
+Qed.
+
+(* handleNamespaceMigrate consults the placement (allocNodeForNamespace) only for a partition that is NOT
+   over-replicated: if the placement's panic answer propagates, the partition has at most [replica] replicas.
+   (So a replica list longer than a lowered factor never reaches the placement from this flow for its own
+   partition; with several partitions the other partitions' lists are handed in too.) *)
+Lemma mig_loop_no_mark : forall replica env cur now l alive ns chg a' c',
+  removings ns = [] ->
+  mig_loop replica env cur now l alive ns chg = Some (a', ns, c') ->
+  (forall x, In x l -> mem x cur = true) \/ len (isr ns) <= replica / 2 + 1.
+Proof.
+  intros replica env cur now l. induction l as [|rp l IH]; intros alive ns chg a' c' He H; simpl in H.
+  - left. intros x [].
+  - destruct (mem rp cur) eqn:Em.
+    + destruct (synced_of env rp); [|discriminate].
+      destruct (IH _ _ _ _ _ He H) as [Hl|Hr]; [left; intros x [->|Hx]; [exact Em|apply Hl; exact Hx]|right; exact Hr].
+    + rewrite He in H. simpl in H.
+      change (len (@nil (N * (N * N))) =? 0) with true in H. simpl in H.
+      destruct (replica / 2 + 1 <? len (isr ns)) eqn:Eg.
+      * apply mig_loop_nonempty in H; [|simpl; rewrite He; discriminate].
+        exfalso. assert (Hrm : removings ns = removings (mark_removing ns rp now)) by (rewrite <- H; reflexivity).
+        simpl in Hrm. rewrite He in Hrm. discriminate.
+      * right. apply N.ltb_ge in Eg. exact Eg.
+Qed.
+
+Ltac no_panic H :=
+  repeat match type of H with
+         | context [if ?c then _ else _] => destruct c
+         | context [let (_, _) := ?x in _] => destruct x
+         | context [match ?o with Some _ => _ | None => _ end] => destruct o
+         end; discriminate H.
+
+Lemma migrate_panic_not_over_replicated : forall replica env now r nepoch info cur ep place c r' i' w,
+  1 <= replica ->
+  handle_migrate replica env now r nepoch info cur ep place = (c, r', i', w) -> c = CPanic ->
+  len (raft_nodes info) <= replica.
+Proof.
+  intros replica env now r nepoch info cur ep place c r' i' w H1 H Hc. subst c. unfold handle_migrate in H.
+  destruct (negb (ep =? nepoch)); [discriminate H|].
+  destruct (0 <? len (removings info)) eqn:E0; [discriminate H|]. apply len_zero_ltb in E0.
+  destruct (mig_loop replica env cur now (raft_nodes info) 0 info false) as [[[alive ns] chg]|] eqn:EL; [|discriminate H].
+  assert (Ha := mig_loop_alive _ _ _ _ _ _ _ _ _ _ _ EL). rewrite N.add_0_l in Ha.
+  destruct (mig_loop_empty _ _ _ _ _ _ _ _ _ _ _ E0 EL) as [Hns|[x [Hx Hns]]]; subst ns.
+  - assert (Hnm := mig_loop_no_mark _ _ _ _ _ _ _ _ _ _ E0 EL).
+    rewrite E0 in H. change (len (@nil (N * (N * N)))) with 0 in H. cbn [N.ltb N.eqb N.compare andb] in H.
+    rewrite andb_false_r in H.
+    destruct (all_ready env info); [|no_panic H].
+    destruct (alive <? replica) eqn:Eal; [|no_panic H].
+    apply N.ltb_lt in Eal.
+    destruct Hnm as [Hall|Hsm].
+    + (* every replica is on a registered node: alive = number of replicas *)
+      assert (Hc : count_in cur (raft_nodes info) = len (raft_nodes info)).
+      { unfold count_in. f_equal. clear - Hall. induction (raft_nodes info) as [|y l IH]; simpl; [reflexivity|].
+        rewrite (Hall y (or_introl eq_refl)). f_equal. apply IH. intros x Hx. apply Hall. right. exact Hx. }
+      lia.
+    + assert (Hisr : isr info = raft_nodes info).
+      { unfold isr. rewrite E0. simpl. clear. induction (raft_nodes info) as [|y l IH]; simpl; [reflexivity|]. f_equal. exact IH. }
+      rewrite Hisr in Hsm. assert (replica / 2 + 1 <= replica) by (zify; lia). lia.
+  - rewrite (removings_mark_empty _ _ _ E0) in H.
+    change (len [(x, (now, raft_id_of info x))]) with 1 in H.
+    cbn [N.ltb N.eqb N.compare Pos.compare Pos.compare_cont andb] in H.
+    no_panic H.
 Qed.
 
 Lemma init_inv : forall replica info auto, Inv replica info ->
